@@ -1071,12 +1071,14 @@ impl<T, P> ThinVec<T, P> {
         let len = self.len();
         self.reserve(n);
         unsafe {
+            // fill in increasing order so that the length only ever covers
+            // initialized slots, even if `clone` panics
             for i in 1..n {
-                self.ptr().add(len + i).write(value.clone());
-                self.set_len(len + i + 1);
+                self.ptr().add(len + i - 1).write(value.clone());
+                self.set_len(len + i);
             }
             if n > 0 {
-                self.ptr().add(len).write(value);
+                self.ptr().add(len + n - 1).write(value);
                 self.set_len(len + n);
             }
         }
